@@ -281,6 +281,11 @@ async def _run_script(ctx, inv, ev, script):
                 e = inv.dispatch(ctx.buses[bus], _mk_event(ctx, 'R', lab, n=ev.n + 1))
                 if mode == 'await':
                     await inv.wait(e)
+        elif op == 'block':
+            # synchronous work that takes time: the clock advances while nothing else can run (timers that fall due meanwhile are all
+            # handled in the next loop iteration, after whatever was already ready)
+            ctx.loop._now = ctx.loop._now + _val(ctx, st[1])
+            ctx.rec('BLOCK', by=inv.id)
         elif op == 'sleep_steps':
             # wait k event-loop iterations without any time passing (k usually a solver-chosen integer): explores the orderings
             # of things that happen at the same virtual instant
